@@ -45,13 +45,18 @@ def select_harnesses(units, tier):
 
 def run_kani_property(pid, cfg, tier, seed, clock):
     """Returns (violations, known, undecided, coverage_dict, assumptions)."""
-    kcfg = cfg["kani"]
+    kcfg = dict(cfg["kani"])
+    if os.environ.get("VERIF_UNITS"):  # development aid: run a subset of the units
+        kcfg["units"] = os.environ["VERIF_UNITS"].split(",")
     units = K.load_units(["common"] + kcfg["units"]) if kcfg.get("package", "typify-impl") == "typify-impl" else K.load_units(kcfg["units"])
     sel = select_harnesses(units, tier)
+    if os.environ.get("VERIF_HARNESSES"):  # development aid
+        want = os.environ["VERIF_HARNESSES"].split(",")
+        sel = [(u, h) for u in units for h in u.harnesses if h["name"] in want]
     canaries = [(u, c) for u in units for c in u.canaries]
     timeout_s = int(os.environ.get("VERIF_HARNESS_TIMEOUT", kcfg.get("timeout_" + tier, 1200 if tier == "quick" else 3600)))
     jobs = int(os.environ.get("VERIF_JOBS", kcfg.get("jobs", 8)))
-    log_dir = os.path.join(VERIF, "work", "logs", pid)
+    log_dir = os.path.join(VERIF, "work", "logs", os.environ.get("VERIF_TAG", pid))
     shutil.rmtree(log_dir, ignore_errors=True)
     os.makedirs(log_dir, exist_ok=True)
 
@@ -68,7 +73,7 @@ def run_kani_property(pid, cfg, tier, seed, clock):
         extra_prepare = mod.prepare
 
     try:
-        with K.Workspace(pid, units, package=kcfg.get("package", "typify-impl"), extra_prepare=extra_prepare) as ws:
+        with K.Workspace(os.environ.get("VERIF_TAG", pid), units, package=kcfg.get("package", "typify-impl"), extra_prepare=extra_prepare) as ws:
             fq = [u.fq(h["name"]) for u, h in sel] + [u.fq(c) for u, c in canaries]
             log("[%s] kani: %d harnesses + %d canaries, tier=%s, timeout/harness=%ds, jobs=%d" % (pid, len(sel), len(canaries), tier, timeout_s, jobs))
             rc, out, rdir, killed = K.run_kani(ws, fq, timeout_s, jobs, os.path.join(log_dir, "kani.log"))
